@@ -1,6 +1,6 @@
 (* The kernel models over the reals satisfy the hypotheses of GenDerivP: the generated divergence / curl / laplacian
    are thereby theorems about (model kernels o generated compositions), down to the dense stencil. *)
-From TN Require Import Alg.InstR Proofs.ArithP Proofs.GenInst Proofs.GenDerivP Proofs.DerivP Proofs.DerivSumP
+From TN Require Import Alg.InstR Proofs.ArithP Proofs.GenInst Proofs.GenDerivP Proofs.GenGradP Proofs.DerivP Proofs.DerivSumP
   Proofs.SumNetsP Proofs.ToolsP Gen.Generated.
 From Coq Require Import List Lia.
 Import ListNotations.
@@ -146,5 +146,35 @@ Proof.
   apply (gen_divergence_spec net (list net) s_nth (@length _) (nat -> R) R (fun b n => b n) r_partial r_pysum (@eval RO) sh okR Dn
            okR_partial okR_pysum ts hinv L sh_ne).
   intros n Hn. unfold s_nth. rewrite Forall_forall in Hts. apply Hts. apply nth_In. lia.
+Qed.
+(* gradient over a list of modes.  Default bounds of mode d are [0, shape_d]; partial() turns a pair [lo, hi] into the
+   step (hi - lo) / (shape_d + 1) * 2, so the default 1/step of mode d is (shape_d + 1) / (2 shape_d) *)
+Definition r_default (t : net) (d : nat) : R := (INR (msize t d) + 1) / (2 * INR (msize t d)).
+Notation g_gradN := (gen_derivatives_gradient_N net R r_partial r_default).
+Notation g_gradB := (gen_derivatives_gradient_B net R r_partial).
+
+Theorem gradient_default_spec (t : net) (dim : list nat) : okR t -> Forall (fun d => (d < length sh)%nat) dim ->
+  length (g_gradN t dim) = length dim /\
+  forall k d, nth_error dim k = Some d ->
+    exists c, nth_error (g_gradN t dim) k = Some c /\ okR c /\
+      forall i, inr i -> eval c i = Dn d 1 ((INR (nth d sh O) + 1) / (2 * INR (nth d sh O))) (eval t) i.
+Proof.
+  intros Ht Hd.
+  destruct (gen_gradient_N_spec net R r_partial r_default (@eval RO) sh okR Dn okR_partial t dim Ht Hd) as [L H].
+  split; [exact L|]. intros k d Hk. destruct (H k d Hk) as (c & Hc & Oc & Ec). exists c. split; [exact Hc|split; [exact Oc|]].
+  intros i Hi. rewrite (Ec i Hi). unfold r_default.
+  rewrite Forall_forall in Hd. assert (Hlt: (d < length sh)%nat) by (apply Hd; eapply nth_error_In; eauto).
+  destruct Ht as [_ St]. destruct (msize_sh t d St Hlt) as (_ & _ & _ & Ms). rewrite Ms. reflexivity.
+Qed.
+
+Theorem gradient_bounds_spec (t : net) (dim : list nat) (hs : list R) : okR t -> length hs = length dim ->
+  Forall (fun d => (d < length sh)%nat) dim ->
+  length (g_gradB t dim hs) = length dim /\
+  forall k d h, nth_error dim k = Some d -> nth_error hs k = Some h ->
+    exists c, nth_error (g_gradB t dim hs) k = Some c /\ okR c /\
+      forall i, inr i -> eval c i = Dn d 1 h (eval t) i.
+Proof.
+  intros Ht Hl Hd.
+  exact (gen_gradient_B_spec net R r_partial (@eval RO) sh okR Dn okR_partial t dim hs Ht Hl Hd).
 Qed.
 End GenDerivInst.
